@@ -948,3 +948,183 @@ PROPS['C20'] = {
                     'specification domain: see the header of lean/KVerif/Model/ZippySpec.lean (silent on ignored keys, no-erase outputs, expansions deleting text they did not type, empty expansions)',
                     'binary_search_by on the sorted per-item vectors of SubsetMap is modelled as a linear search'],
 }
+
+# ----------------------------------------------------------------------------- C15 (live reload)
+_C15_ACT2 = {'k', 'r#', 'rf', 'lh', 'ls', 'vp', 'vr', 'vt', 'vg', 'um'}
+
+
+def _c15_parse(case):
+    """'C15 S ...' -> (files, steps) with files/steps as token lists; None for other families"""
+    t = case.split()
+    if t[:2] != ['C15', 'S']:
+        return None
+    i = [3]
+
+    def content():
+        k = t[i[0]]
+        i[0] += 1
+        if k in ('ok', 'okx'):
+            st = i[0]
+            assert t[i[0]] == 'cfg'
+            i[0] += 2
+            assert t[i[0]] == 'L'
+            nl = int(t[i[0] + 1])
+            i[0] += 2
+            for _ in range(nl * 6):
+                i[0] += 2 if t[i[0]] in _C15_ACT2 else 1
+            assert t[i[0]] == 'V'
+            nv = int(t[i[0] + 1])
+            i[0] += 2 + nv
+            return [k] + t[st:i[0]]
+        return [k]
+
+    nf = int(t[3])
+    i[0] = 4
+    files = [content() for _ in range(nf)]
+    assert t[i[0]] == 'steps'
+    ns = int(t[i[0] + 1])
+    i[0] += 2
+    steps = []
+    for _ in range(ns):
+        k = t[i[0]]
+        if k in ('p', 'r'):
+            steps.append(t[i[0]:i[0] + 3])
+            i[0] += 3
+        elif k in ('t', 'j'):
+            steps.append(t[i[0]:i[0] + 2])
+            i[0] += 2
+        elif k == 'w':
+            f = t[i[0] + 1]
+            i[0] += 2
+            steps.append(['w', f] + content())
+        else:
+            raise ValueError(k)
+    return files, steps
+
+
+def _c15_render(files, steps):
+    out = ['C15', 'S', 'nf', str(len(files))]
+    for f in files:
+        out += f
+    out += ['steps', str(len(steps))]
+    for s in steps:
+        out += s
+    return ' '.join(out)
+
+
+def _c15_shrink(case):
+    try:
+        p = _c15_parse(case)
+    except Exception:
+        return
+    if not p:
+        return
+    files, steps = p
+    for i in range(len(steps)):
+        yield _c15_render(files, steps[:i] + steps[i + 1:])
+    for i, s in enumerate(steps):
+        if s[0] == 't' and int(s[1]) > 1:
+            for n in (1, int(s[1]) // 2, int(s[1]) - 1):
+                if 0 < n < int(s[1]):
+                    yield _c15_render(files, steps[:i] + [['t', str(n)]] + steps[i + 1:])
+
+
+def _c15_project(out):
+    # the specification side does not print the idle counter (a restart zeroes it; the code leaves a dead value)
+    return re.sub(r' tsi=\d+', '', out)
+
+
+def _c15_nontrivial(case, impl):
+    if case.startswith('C15 R'):
+        return True
+    return ':ok' in impl or ':fail' in impl
+
+
+def _c15_stats(cases, impl):
+    import collections
+    d = collections.Counter()
+    for c, i in zip(cases, impl):
+        if c.startswith('C15 R'):
+            t = c.split()
+            d['relational_cases'] += 1
+            d['relational_new_content_' + t[4]] += 1
+            d['relational_history_%s' % t[3]] += 1
+            if 'fresh=eq' in i:
+                d['relational_reloaded_equals_fresh'] += 1
+            if 'noop=eq' in i:
+                d['relational_failed_reload_equals_no_request'] += 1
+            continue
+        d['trace_cases'] += 1
+        nf = int(c.split()[3])
+        d['files_%d' % nf] += 1
+        n_ok = len(re.findall(r'\d+:ok\b', i))
+        n_fail = len(re.findall(r'\d+:fail\b', i))
+        d['reloads_succeeded'] += n_ok
+        d['reloads_failed'] += n_fail
+        if n_ok + n_fail == 0:
+            d['cases_without_attempt'] += 1
+        if n_ok + n_fail >= 2:
+            d['cases_with_repeated_attempts'] += 1
+        for kind in ('syn', 'sem', 'mis', 'unr', 'okx'):
+            if re.search(r'\b' + kind + r'\b', c):
+                d['content_' + kind] += 1
+        for a in ('rn', 'rp', 'r#', 'rf', 'lh', 'ls', 'um'):
+            if re.search(r'(?<=\s)' + re.escape(a) + r'(?=\s)', c):
+                d['action_' + a] += 1
+        if re.search(r'\bv[prtg] \d', c):
+            d['action_virtual_key'] += 1
+        if 'rqbad' in i:
+            d['lrld_num_out_of_range'] += 1
+        if 'rqnop' in i:
+            d['lrld_file_not_passed'] += 1
+        # deferred: request and attempt in different iterations
+        req = [int(x) for x in re.findall(r'(\d+):rq', i)]
+        att = [int(x) for x in re.findall(r'(\d+):(?:ok|fail)', i)]
+        if req and att and any(a not in req for a in att):
+            d['deferred_reloads'] += 1
+        if any(a >= 1000 for a in att):
+            d['idle_fallback_reloads'] += 1
+        if 'req=1' in i:
+            d['request_still_pending_at_end'] += 1
+        if ' blk' in i or i.startswith('0:blk'):
+            d['cases_with_blocking'] += 1
+        if ' w ' in c:
+            d['file_rewritten_mid_run'] += 1
+        if 'crash' in i or 'error' in i:
+            d['crash_or_error'] += 1
+    return dict(d)
+
+
+def _c15_describe(case):
+    t = case.split()
+    if t[:2] == ['C15', 'R']:
+        return ('relational case on the real code: old rich configuration #%s, history #%s before the request, '
+                'new file content %s (new configuration #%s), continuation seed %s — see scenario()/rich_old()/rich_new() '
+                'in harness/src/c15.rs' % (t[2], t[3], t[4], t[5], t[6]))
+    return ('processing-loop trace: files (ok/okx = valid [with linux-x11-repeat-delay-rate], syn/sem/mis/unr = '
+            'syntactically broken / semantically rejected / missing / unreadable) then steps (p/r key ms, t n idle '
+            'iterations, j ms, w f content = rewrite file f): ' + case)
+
+
+PROPS['C15'] = {
+    'lean_modules': ['KVerif.Props.C15'],
+    'oracle_project': _c15_project,
+    'nontrivial': _c15_nontrivial,
+    'rule': 'simple-fragment traces through the real processing-loop shape under virtual time (exhaustive families: every reload action from every position with 1-3 files; 6 kinds of new content x 7 kinds of held state at the request; back-to-back requests; then random scripts over random 1-4 file sets with files rewritten mid-run) compared token by token with the Lean model (impl = model) and with the restart specification (impl = spec); plus relational cases on rich configurations (22 histories x 5 content kinds x 3 new configurations, random continuations): failed reload vs no request, successful reload vs fresh instance; non-trivial = a reload was attempted (trace cases) / always (relational); distinct = distinct case line',
+    'stats': _c15_stats,
+    'shrink_candidates': _c15_shrink,
+    'describe': _c15_describe,
+    'per_case_timeout': 1.0,
+    'trusted_base': [
+        'Model/Reload.lean as a transcription of handle_time_ticks / tick_ms / tick_states (bookkeeping part) / check_handle_layer_change / is_idle / can_block_update_idle_waiting / the LiveReload* arms; do_live_reload and the constructors are not transcribed but interpreted from lists regenerated from src/kanata/mod.rs (gen/g_reload.py)',
+        'Model/ReloadMini.lean (keyberon fragment: plain keys, layers, virtual keys, unmod) — used by the correspondence only, no theorem depends on it',
+        'hook verif_handle_time_ticks (sets last_tick = now - ms, clears the remainder, calls the private handle_time_ticks)',
+        'the file system, cfg::new_from_file and everything in tick_states that is not reload bookkeeping are parameters of the theorems (World), exercised but not modelled',
+    ],
+    'assumptions': [
+        'tick_states, handle_input_event and tick_replay_state write the bookkeeping fields only where Gen.Reload.writeSites says (checked against the source each run: write_sites_as_modelled)',
+        'relational cases run the loop without parking in rx.recv(): that parking is unobservable is property C07',
+        'the tx channel never fills up (try_send errors are logged and dropped in the code)',
+        'thread interleaving and wall-clock drift of start_processing_loop are replaced by virtual time',
+    ],
+}
